@@ -379,14 +379,16 @@ class Failures:
 class Deadline:
     """wall-clock budget of a stand-in run: jobs that have not started when it expires are skipped (and counted)"""
 
-    BUDGET = {"quick": 38.0, "thorough": 13.5 * 60}
+    # the quick case lists are sized for ~35 s on an idle machine; the budget only has to stop a runaway run - it is generous so that a
+    # busy machine does not silently shrink the coverage
+    BUDGET = {"quick": 300.0, "thorough": 20 * 60}
 
     def __init__(self, tier):
         import threading
         import time
 
         self._time = time.time
-        self.end = time.time() + self.BUDGET.get(tier, 38.0)
+        self.end = time.time() + self.BUDGET.get(tier, 300.0)
         self.skipped = 0
         self._lock = threading.Lock()
 
